@@ -591,3 +591,6 @@ func (n *VerifNode) StopWAL() {
 		n.CS.wal.Wait()
 	}
 }
+
+// BlockExec exposes the node's real block executor (used by the block-sync sub-harness).
+func (n *VerifNode) BlockExec() *cstate.BlockExecutor { return n.CS.blockExec }
